@@ -14,7 +14,11 @@ impl Error {
 pub struct IoError { _p: u8 }
 #[verifier::external_body]
 pub struct KString { _p: u8 }
-impl KString { pub uninterp spec fn view(&self) -> Seq<char>; }
+impl KString {
+    pub uninterp spec fn view(&self) -> Seq<char>;
+    #[verifier::external_body]
+    pub fn as_str(&self) -> (r: &str) ensures r@ == self.view() { unimplemented!() }
+}
 impl core::ops::Deref for KString {
     type Target = str;
     #[verifier::external_body]
